@@ -1,13 +1,13 @@
 ------------------------------- MODULE MC_Text -------------------------------
-(* X08-a on the specification, and the source of its S2C replay.  One behaviour  c --Eval--> done  per   *)
-(* case of the universe; the invariants are the laws of the statement (one per clause), each looking at  *)
+(* X08-a on the specification, and the source of its S2C replay.  One step  chunk --Eval--> case  per case   *)
+(* of the universe;    the invariants are the laws of the statement (one per clause), each looking at  *)
 (* the cases of its own operation; the generator configuration prints every case of the domain with the  *)
 (* SET of outcomes the specification admits.                                                              *)
 EXTENDS TextNum, TLC, Json, SequencesExt, FiniteSetsExt
 CONSTANTS Strata,        \* which parts of the universe: subset of {"prefix", "sep", "replace", "split", "chars", "bbg", "num", "misc"}
           NumLen         \* as_float: every string of at most NumLen characters over the 13 character alphabet
-VARIABLES c, done
-vars == <<c, done>>
+VARIABLES c            \* a chunk marker [op |-> "chunk", k] (initial states) or one case of the universe (its successors)
+vars == <<c>>
 
 SeqsUpTo(S, n) == UNION {[1..k -> S] : k \in 0..n}
 AB1 == SeqsUpTo({97, 98}, 1)
@@ -67,10 +67,15 @@ Universe == (IF "prefix" \in Strata THEN PrefixCases ELSE {}) \cup (IF "sep" \in
             \cup (IF "chars" \in Strata THEN CharCases ELSE {}) \cup (IF "bbg" \in Strata THEN BbgCases ELSE {})
             \cup (IF "num" \in Strata THEN NumCases ELSE {}) \cup (IF "misc" \in Strata THEN MiscCases ELSE {})
 
-Init == c \in Universe /\ done = FALSE
-Eval == done = FALSE /\ done' = TRUE /\ UNCHANGED c
+\* the universe is dealt out to K initial states, so that the workers share the evaluation of the laws
+US == SetToSeq(Universe)
+K  == 64
+Lo(k) == ((k - 1) * Len(US)) \div K + 1
+Hi(k) == (k * Len(US)) \div K
+Init == c \in {[op |-> "chunk", k |-> k] : k \in 1..K}
+Eval == c.op = "chunk" /\ \E i \in Lo(c.k)..Hi(c.k) : c' = US[i]
 EvalGen == /\ Eval
-           /\ IF InDomain(c) THEN PrintT(ToJson([case |-> c, want |-> SetToSeq(Want(c))])) ELSE TRUE
+           /\ IF InDomain(c') THEN PrintT(ToJson([case |-> c', want |-> SetToSeq(Want(c'))])) ELSE TRUE
 
 \* ---------------------------------------------------------------------------------------------------------
 \* the laws
@@ -141,7 +146,7 @@ BbgLaws == (Is("bbgcase") /\ IsStrV(c.x) /\ InDomain(c)) =>
 IsNumOut(w) == w.kind = "val" /\ w.v[1] = "num"
 NumOf(s) == LET w == AsFloatWant(TStr(s)) IN IF Cardinality(w) = 1 /\ \A x \in w : IsNumOut(x) THEN (CHOOSE x \in w : TRUE).v[2] ELSE <<"none">>
 Insert(s, i, ch) == TxTake(s, i) \o <<ch>> \o TxDrop(s, i)
-EndingsConsistent == (Is("as_float") /\ IsStrV(c.x) /\ HasEnding(Clean(c.x[2]))) => LongestEnding(Clean(c.x[2])) = FirstEnding(Clean(c.x[2]))
+EndingsConsistent == (Is("as_float") /\ IsStrV(c.x)) => EndingOf(Clean(c.x[2])) = FirstEndingOf(Clean(c.x[2]))
 BlanksAndCommas == (Is("as_float") /\ IsStrV(c.x) /\ NumInDomain(c.x) /\ Len(c.x[2]) <= NumLen) =>
                 \A i \in 0..Len(c.x[2]) : \A ch \in {32, 44} : NumOf(Insert(c.x[2], i, ch)) = NumOf(c.x[2])
 SignAndPercent == (Is("as_float") /\ IsStrV(c.x) /\ NumInDomain(c.x) /\ NumOf(c.x[2]) # <<"none">>) =>
